@@ -57,10 +57,10 @@ namespace sw { namespace universal {
 			}
 			int shift = _scale - p.fbits;  // if scale > fbits we need to shift left
 			v <<= shift;
-			if (p.isneg()) {
-				v.flip();
-				v += 1;
-			}
+		}
+		if (p.isneg()) {
+			v.flip();
+			v += 1;
 		}
 	}
 
